@@ -337,6 +337,7 @@ def generate(rng, tier):
     for (r, c) in [(0, 0), (0, 2), (1, 1), (2, 3), (3, 2), (4, 4)]:
         cases.append(mk_scale_l((r, c, [norm_val(g) for _ in range(r * c)]), val(g, 'f64')))
     cases.append(mk('rat', distinct_mat(1, 1), [("eye", n) for n in range(B + 2)], "eye-sizes"))
+    cases += gen_special(rng, tier)
     # (c) random histories
     g = rng.fork("hist")
     nh = 400 if tier == "thorough" else 80
@@ -353,6 +354,104 @@ def generate(rng, tier):
                 continue          # keep the shape fixed for the float tiers (no reference bookkeeping there)
             ops.append(o)
         cases.append(mk(elt, m0, ops, "history-" + elt))
+    return cases
+
+# ---- round four (package specA): special values of every scalar argument, both operands the same object, degenerate shapes in the
+# op-pairs, special values in the float kinds (findings/special-values-specA.md)
+SCALAR_CLASSES = [Fraction(0), Fraction(1), Fraction(-1), Fraction(2), Fraction(1, 2)]
+EXTRA_PAIR_SHAPES = [(1, 3), (3, 1), (0, 2), (2, 0), (1, 2), (3, 3)]
+CPLX_SCALARS = [1, -1, 1j, -1j, complex(0.6, 0.8), complex(-0.8, 0.6), 1 + 1j, 2, 0.5, 2j, -0.5j, 0]
+F64_SCALARS = [0.0, -0.0, 1.0, -1.0, 2.0, 0.5, -2.0]
+
+def rot(g, xs, k):
+    if k >= len(xs): return list(xs)
+    o = g.below(len(xs))
+    return [xs[(o + i) % len(xs)] for i in range(k)]
+
+def gen_special(rng, tier):
+    cases = []
+    quick = tier == "quick"
+    S = 3
+    # (v) every operation with a scalar argument x the value classes 0, 1, -1, 2, 1/2 x every shape 0..3 x 0..3 (distinct non-zero
+    # entries, so that a fast path returning the wrong shape, the operand itself or a stale buffer shows)
+    g = rng.fork("scalar-classes")
+    for r in range(S + 1):
+        for c in range(S + 1):
+            m0 = distinct_mat(r, c)
+            xs = rot(g, SCALAR_CLASSES, 3) if quick else SCALAR_CLASSES
+            readers = []
+            for x in xs:
+                readers += [("scale", x)] + ([("div", x)] if x != 0 else [])
+                for name in ("mul_assign_s", "add_assign_s", "sub_assign_s", "fill", "fill_diag"):
+                    cases.append(mk('rat', m0, [(name, x)], "scalar-classes"))
+                if x != 0: cases.append(mk('rat', m0, [("div_assign_s", x)], "scalar-classes"))
+                cases.append(mk('rat', m0, [("fill_tridiag", x, SCALAR_CLASSES[(SCALAR_CLASSES.index(x) + 1) % 5], x)], "scalar-classes"))
+                if r > 0: cases.append(mk('rat', m0, [("fill_row", g.below(r), x)], "scalar-classes"))
+                if c > 0: cases.append(mk('rat', m0, [("fill_col", g.below(c), x)], "scalar-classes"))
+                cases.append(mk('rat', m0, [("fill_band", g.range(-max(r - 1, 0), max(c - 1, 0)), x)], "scalar-classes"))
+            # operands of special structure: the zero matrix, the matrix itself (m + m, m - m as separate objects), the identity
+            zero = (r, c, [Fraction(0)] * (r * c))
+            readers += [("add", zero), ("sub", zero), ("add", m0), ("sub", m0), ("multiply", [Fraction(0)] * c), ("multiply", [Fraction(1)] * c)]
+            if c > 0: readers += [("multiply", [Fraction(1) if j == c - 1 else Fraction(0) for j in range(c)])]
+            eye_c = (c, c, [Fraction(1) if i == j else Fraction(0) for i in range(c) for j in range(c)])
+            eye_r = (r, r, [Fraction(1) if i == j else Fraction(0) for i in range(r) for j in range(r)])
+            readers += [("mul", eye_c), ("mul_l", eye_r), ("mul", (c, 2, [Fraction(0)] * (2 * c)))]
+            # both operands the SAME object
+            readers += [("add_self", m0), ("sub_self", m0), ("mul_self", m0)]
+            cases.append(mk('rat', m0, readers, "special-operands"))
+            for name in ("add_assign", "sub_assign", "add_assign_own", "sub_assign_own"):
+                cases.append(mk('rat', m0, [(name, zero), (name, m0)], "special-operands"))
+    # the same-object forms after an editing step (the operand is the current state)
+    g = rng.fork("same-object-history")
+    for t in range(12 if quick else 100):
+        r, c = g.range(0, 4), g.range(0, 4)
+        if t % 2 == 0: c = r
+        m0 = rmat(g, 'rat', r, c)
+        ops = []
+        for _ in range(g.range(1, 3)):
+            rr, cc = shape_after(m0, ops)
+            ops.append(EDIT_OPS[g.below(len(EDIT_OPS))][1](g, rr, cc))
+            cur = state_after(m0, ops).tup()
+            ops.append((g.choice(["add_self", "sub_self", "mul_self", "mul_self"]), cur))
+        cases.append(mk('rat', m0, ops, "same-object-history"))
+    # (p') op-pairs on the degenerate shapes: single row, single column, empty with a non-zero dimension, 3x3
+    g = rng.fork("op-pairs-extra")
+    for (r, c) in (rot(g, EXTRA_PAIR_SHAPES, 1) if quick else EXTRA_PAIR_SHAPES):
+        m0 = distinct_mat(r, c)
+        for a in EDIT_OPS:
+            for b in EDIT_OPS:
+                cases.append(mk('rat', m0, op_chain(g, m0, [a, b]), "op-pairs-%dx%d" % (r, c)))
+    # (f) f64 * matrix: scalar classes 0, -0.0, 1, -1, 2, 1/2 on empty / single-row / single-column / wide / tall shapes
+    g = rng.fork("scale_l-classes")
+    for (r, c) in [(0, 0), (0, 2), (2, 0), (1, 1), (1, 3), (3, 1), (2, 3), (3, 2)]:
+        for x in (rot(g, F64_SCALARS, 3) if quick else F64_SCALARS):
+            cases.append(mk_scale_l((r, c, [norm_val(g) for _ in range(r * c)]), x, "scale_l-classes"))
+    # (z) the float kinds with special values: Complex<f64> scalars on the axes / of unit modulus / with |re| = |im|, f64 scalars
+    # 0, -0.0, +-1, 2, 1/2; entries drawn from the same menus.  Judged by the numpy list-of-rows reference (tolerance) and tied bitwise.
+    g = rng.fork("float-classes")
+    for elt, menu in (('cplx', CPLX_SCALARS), ('f64', F64_SCALARS)):
+        conv = complex if elt == 'cplx' else float
+        for (r, c) in [(1, 1), (2, 2), (2, 3), (3, 1)]:
+            m0 = (r, c, [conv(menu[g.below(len(menu))]) if g.chance(1, 2) else val(g, elt) for _ in range(r * c)])
+            for x in (rot(g, menu, 4) if quick else menu):
+                x = conv(x)
+                ops = [("scale", x), ("mul_assign_s", x), ("add_assign_s", x), ("neg",), ("sub_assign_s", x), ("fill_diag", x),
+                       ("add", (r, c, [conv(menu[g.below(len(menu))]) for _ in range(r * c)])), ("multiply", [conv(menu[g.below(len(menu))]) for _ in range(c)]),
+                       ("mul", (c, 2, [conv(menu[g.below(len(menu))]) for _ in range(2 * c)]))]
+                if x != 0: ops = [("div", x), ("div_assign_s", x)] + ops
+                cases.append(mk(elt, m0, ops, "float-classes-" + elt))
+    # (n') norms on special patterns: all entries equal (ties), one non-zero entry in a corner, entries +-x of equal magnitude,
+    # single row / single column; norm_p at p = 1 and p = 2 (entrywise 1-norm and Frobenius) and p = 1/2 on each
+    g = rng.fork("norm-classes")
+    shapes = [(1, 1), (1, 4), (4, 1), (2, 3), (3, 2), (3, 3)]
+    for (r, c) in (rot(g, shapes, 3) if quick else shapes):
+        pats = [[-2.5] * (r * c), [0.0] * (r * c - 1) + [-3.0], [-3.0] + [0.0] * (r * c - 1),
+                [(1.5 if (i + j) % 2 == 0 else -1.5) for i in range(r) for j in range(c)], [-0.0] * (r * c)]
+        for vals in pats:
+            m0 = (r, c, vals)
+            cases.append(mk_norms(m0, "norm-classes"))
+            for pp in (1.0, 2.0, 0.5):
+                cases.append(mk_norm_p(m0, pp, "norm-classes"))
     return cases
 
 def case_from_json(j):
@@ -376,7 +475,7 @@ def case_from_json(j):
             for k, a in zip(kinds, o[1:]):
                 if k == 's': out.append(Fraction(a))
                 elif k == 'v': out.append([Fraction(x) for x in a])
-                elif k == 'm': out.append((a[0], a[1], [Fraction(x) for x in a[2]]))
+                elif k in 'mM': out.append((a[0], a[1], [Fraction(x) for x in a[2]]))
                 else: out.append(a)
             return tuple(out)
         ops = [cop(o) for o in ops]
@@ -394,6 +493,11 @@ def oracle(case, items):
             return "f64 * matrix / matrix * f64 differ from the entrywise products: got %r, expected %r" % (items[:12], exp[:12])
         return None
     if case.elt != 'rat':
+        # f64 / Complex<f64>: the same list-of-rows reference evaluated with numpy scalars, compared with a tolerance relative to
+        # the largest magnitude of the history (round four: the float kinds had no reference of their own, only the model tie)
+        d = streams_close_float(case.elt, ref_hist_float(case.elt, case.meta["m0"], case.meta["ops"]), items)
+        if d:
+            return "dense %s matrix history disagrees with the list-of-rows reference: %s" % (case.elt, d)
         return None
     exp = ref_hist('rat', case.meta["m0"], case.meta["ops"], eq=True)
     d = streams_equal_exact(exp, items)
